@@ -754,6 +754,7 @@ def normalise_module(tree: ast.Module):
         LoopNorm().visit(tree)
         normalise_functions(tree)
         ast.fix_missing_locations(tree)
+    prune_dead(tree)
     return info
 
 
@@ -1287,6 +1288,15 @@ class Canon(ast.NodeTransformer):
         if isinstance(node.func, ast.IfExp) and not any(isinstance(x, ast.Call) for a in list(node.args) + [k.value for k in node.keywords] for x in ast.walk(a)):
             mk = lambda f: ast.Call(func=f, args=copy.deepcopy(node.args), keywords=copy.deepcopy(node.keywords))
             return ast.copy_location(ast.IfExp(test=node.func.test, body=mk(node.func.body), orelse=mk(node.func.orelse)), node)
+        # f(*[a, b])  ==>  f(a, b)
+        if any(isinstance(a, ast.Starred) and isinstance(a.value, (ast.List, ast.Tuple)) for a in node.args):
+            args = []
+            for a in node.args:
+                if isinstance(a, ast.Starred) and isinstance(a.value, (ast.List, ast.Tuple)):
+                    args += a.value.elts
+                else:
+                    args.append(a)
+            node.args = args
         # list() / dict()  ==>  [] / {}
         if fname == "list" and not node.args and not node.keywords:
             return ast.copy_location(ast.List(elts=[], ctx=ast.Load()), node)
@@ -1595,7 +1605,25 @@ class AppendLoops(ast.NodeTransformer):
         return node
 
 
+def prune_dead(tree):
+    """statements after an unconditional raise / return / break / continue, and `pass` next to other statements"""
+    for n in ast.walk(tree):
+        for fld in ("body", "orelse", "finalbody"):
+            sub = getattr(n, fld, None)
+            if isinstance(sub, list) and sub and isinstance(sub[0], ast.stmt):
+                out = []
+                for st in sub:
+                    out.append(st)
+                    if isinstance(st, (ast.Raise, ast.Return, ast.Break, ast.Continue)):
+                        break
+                if len(out) > 1:
+                    out = [st for st in out if not isinstance(st, ast.Pass)] or [out[0]]
+                if len(out) != len(sub):
+                    setattr(n, fld, out)
+
+
 def normalise_functions(tree):
+    prune_dead(tree)
     AppendLoops().visit(tree)
     Canon().visit(tree)
     n = 0
